@@ -460,6 +460,16 @@ func handleCrash(a OrchArgs, info *props.Info, cr crashCase) (violationLine, tro
 	if err != nil {
 		return "", err.Error()
 	}
+	if !hung {
+		// minimise the tape with a small budget: every attempt is a fresh process
+		min, st := shrinkCrash(a, rf, path, limit)
+		if len(min) < len(rf.Tape) {
+			rf.Tape, rf.Labels, rf.Shrink = min, nil, st
+			if _, err := WriteReplay(rf); err != nil {
+				return "", err.Error()
+			}
+		}
+	}
 	// confirm from the tape
 	rc, _ := ReplayCrash(a.Bin, a.RaceBin, path, limit)
 	if rc != 1 {
@@ -514,4 +524,68 @@ func ReplayCrash(bin, raceBin, path string, limit time.Duration) (int, string) {
 		return 1, out
 	}
 	return 0, out
+}
+
+// shrinkCrash minimises the tape of a run that takes the process down: shortest crashing
+// prefix (an exhausted tape serves zeros), then zeroing blocks. Each attempt replays a
+// candidate file in a child process and keeps it only if the child ends the same way.
+func shrinkCrash(a OrchArgs, rf *ReplayFile, path string, limit time.Duration) ([]uint64, ShrinkStats) {
+	st := ShrinkStats{FromDraws: len(rf.Tape)}
+	start := time.Now()
+	tmp := path + ".cand"
+	defer os.Remove(tmp)
+	try := func(vals []uint64) bool {
+		if st.Attempts >= 40 || time.Since(start) > 90*time.Second {
+			return false
+		}
+		st.Attempts++
+		c := *rf
+		c.Tape, c.Labels = vals, nil
+		b, _ := json.Marshal(&c)
+		if ioutil.WriteFile(tmp, b, 0o644) != nil {
+			return false
+		}
+		rc, _ := ReplayCrash(a.Bin, a.RaceBin, tmp, limit)
+		if rc == 1 {
+			st.Accepted++
+			return true
+		}
+		return false
+	}
+	cur := append([]uint64(nil), rf.Tape...)
+	// shortest crashing prefix by bisection
+	lo, hi := 0, len(cur)
+	for lo < hi && st.Attempts < 14 {
+		mid := (lo + hi) / 2
+		if try(cur[:mid]) {
+			hi = mid
+		} else {
+			lo = mid + 1
+		}
+	}
+	cur = cur[:hi]
+	for blk := len(cur) / 4; blk >= 1 && st.Attempts < 40; blk /= 2 {
+		for i := 0; i+blk <= len(cur) && st.Attempts < 40; i += blk {
+			cand := append([]uint64(nil), cur...)
+			nz := false
+			for j := i; j < i+blk; j++ {
+				if cand[j] != 0 {
+					nz = true
+				}
+				cand[j] = 0
+			}
+			if nz && try(cand) {
+				cur = cand
+			}
+		}
+		if blk == 1 {
+			break
+		}
+	}
+	for len(cur) > 0 && cur[len(cur)-1] == 0 {
+		cur = cur[:len(cur)-1]
+	}
+	st.ToDraws = len(cur)
+	st.Seconds = time.Since(start).Seconds()
+	return cur, st
 }
